@@ -524,9 +524,10 @@ Lemma mon_poll2_errs_other (P : pid) p n m g s :
   (P = PC13 -> y_e13 g s = []) -> (P = PC12 -> y_e_scan p m g s = []) ->
   (P = PC15 -> y_e_rr n g s = []) -> (P = PC15 -> y_e_end p n m g s = []) ->
   onlyp (is_not P) (y_e_live p m g s) ->
+  (P = PC06 -> y_e_backoff p m g s = []) ->
   onlyp (is_not P) (snd (mon_poll2 p n m g s)).
 Proof.
-  intros Hf Ht Hs H13 Hsc Hrr He Hl. rewrite mon_poll2_eq. cbn [snd].
+  intros Hf Ht Hs H13 Hsc Hrr He Hl Hb. rewrite mon_poll2_eq. cbn [snd].
   apply onlyp_app; [exact (onlyp_group _ _ _ Hf (y_e_found_only p m g s))|].
   apply onlyp_app; [exact (onlyp_group _ _ _ Ht (y_e_tok_only p g s))|].
   apply onlyp_app; [exact (onlyp_group _ _ _ Hs (y_e_sweep_only p m g s))|].
@@ -534,7 +535,8 @@ Proof.
   apply onlyp_app; [exact (onlyp_group _ _ _ Hsc (y_e_scan_only p m g s))|].
   apply onlyp_app; [exact (onlyp_group _ _ _ Hrr (y_e_rr_only n g s))|].
   apply onlyp_app; [exact (onlyp_group _ _ _ He (y_e_end_only p n m g s))|].
-  exact Hl.
+  apply onlyp_app; [exact Hl|].
+  exact (onlyp_group _ _ _ Hb (y_e_backoff_only p m g s)).
 Qed.
 
 Lemma y_e_live_other (P : pid) p m g s : P <> PC12 -> P <> PC11 -> P <> PC15 -> onlyp (is_not P) (y_e_live p m g s).
@@ -601,22 +603,46 @@ Proof.
   - intros f0 apps0 E Hn HG. exact (J1_init _ _ _ E Hn HG).
 Qed.
 
-(* C06: the rule of C06 (the claim after the time-out) never fires, outside the same known class *)
-Theorem c06_oracle_sound (apps : list A) (ins : list minput) :
+(* C06: the rule R06_no_claim_after_timeout (the claim after the time-out) never fires, outside the same known
+   class; the other rule of C06, R06_no_backoff, is treated in a later part *)
+Theorem c06_claim_oracle_sound (apps : list A) (ins : list minput) :
   ins_ok 0 ins -> transcript_ok A ops p no_stale apps ins ->
-  forall k r, In (k, r) (monitor p (length apps) (model_transcript A ops p apps ins)) -> rule_prop r <> PC06.
+  forall k r, In (k, r) (monitor p (length apps) (model_transcript A ops p apps ins)) -> r <> R06_no_claim_after_timeout.
 Proof.
   intros Hok Hrun.
-  apply (generic_sound_transcript A ops p (length apps) (fun r => rule_prop r <> PC06) (J1 (length apps)) no_stale); try assumption; try reflexivity.
+  apply (generic_sound_transcript A ops p (length apps) (fun r => r <> R06_no_claim_after_timeout) (J1 (length apps)) no_stale); try assumption; try reflexivity.
   - discriminate.
   - intros a f apps0 buf tl m g f' HJ E HG. exact (J1_api _ _ _ _ _ _ _ _ _ HJ E HG).
   - intros f apps0 buf tl m g now busy nb f' o apps' calls HJ Hle Hnow Hnb E HG'.
     split; [|split; [|exact (J1_poll _ _ _ _ _ _ _ _ _ _ _ _ _ _ HJ Hle Hnow Hnb E HG')]].
     + destruct HJ as (HB & HT & HG). assert (Hle' : tl <= now) by lia.
-      apply mon_poll_errs_other; try discriminate.
-      * intros _. eapply c06_ok; eassumption.
-      * apply x_fold_other; discriminate.
-    + apply mon_poll2_errs_other; try discriminate. apply y_e_live_other; discriminate.
+      intros r Hr ->. rewrite mon_poll_eq in Hr. cbn [snd] in Hr.
+      assert (H6 : x_e06 p m (poll_event now busy (buf ++ nb) f' o calls) = []) by (eapply c06_ok; eassumption).
+      rewrite H6 in Hr. cbn [app] in Hr.
+      apply in_app_or in Hr; destruct Hr as [Hr|Hr]; [pose proof (x_e01_only _ _ _ _ Hr) as C; discriminate C|].
+      apply in_app_or in Hr; destruct Hr as [Hr|Hr]; [pose proof (x_e11a_only _ _ _ _ Hr) as C; discriminate C|].
+      apply in_app_or in Hr; destruct Hr as [Hr|Hr]; [pose proof (x_e11c_only _ _ _ _ Hr) as C; discriminate C|].
+      apply in_app_or in Hr; destruct Hr as [Hr|Hr]; [pose proof (x_e11b_only _ _ _ _ Hr) as C; discriminate C|].
+      apply in_app_or in Hr; destruct Hr as [Hr|Hr]; [pose proof (x_e12a_only _ _ _ _ Hr) as C; discriminate C|].
+      apply in_app_or in Hr; destruct Hr as [Hr|Hr]; [pose proof (x_e12b_only _ _ _ _ Hr) as C; discriminate C|].
+      apply in_app_or in Hr; destruct Hr as [Hr|Hr]; [pose proof (x_fold_only _ _ _ _ _ Hr) as [C|C]; discriminate C|].
+      pose proof (x_e15_only _ _ _ _ _ Hr) as C. discriminate C.
+    + intros r Hr ->. rewrite mon_poll2_eq in Hr. cbn [snd] in Hr.
+      apply in_app_or in Hr; destruct Hr as [Hr|Hr]; [pose proof (y_e_found_only _ _ _ _ _ Hr) as C; discriminate C|].
+      apply in_app_or in Hr; destruct Hr as [Hr|Hr]; [pose proof (y_e_tok_only _ _ _ _ Hr) as C; discriminate C|].
+      apply in_app_or in Hr; destruct Hr as [Hr|Hr]; [pose proof (y_e_sweep_only _ _ _ _ _ Hr) as C; discriminate C|].
+      apply in_app_or in Hr; destruct Hr as [Hr|Hr]; [pose proof (y_e13_only _ _ _ Hr) as C; discriminate C|].
+      apply in_app_or in Hr; destruct Hr as [Hr|Hr]; [pose proof (y_e_scan_only _ _ _ _ _ Hr) as C; discriminate C|].
+      apply in_app_or in Hr; destruct Hr as [Hr|Hr]; [pose proof (y_e_rr_only _ _ _ _ Hr) as C; discriminate C|].
+      apply in_app_or in Hr; destruct Hr as [Hr|Hr]; [pose proof (y_e_end_only _ _ _ _ _ _ Hr) as C; discriminate C|].
+      apply in_app_or in Hr; destruct Hr as [Hr|Hr]; [pose proof (y_e_live_only _ _ _ _ _ Hr) as [C|[C|C]]; discriminate C|].
+      (* the back-off group has only its own rule *)
+      unfold y_e_backoff in Hr. cbv zeta in Hr.
+      repeat match type of Hr with
+             | In _ (if ?b then _ else _) => destruct b
+             | In _ (match ?x with _ => _ end) => destruct x
+             end; try contradiction.
+      unfold check in Hr. destruct (_ && _); [contradiction|]. destruct Hr as [C|[]]. discriminate C.
   - intros f0 apps0 E Hn HG. exact (J1_init _ _ _ E Hn HG).
 Qed.
 
